@@ -34,15 +34,18 @@ class LoggingEvaluator(PythonEvaluator):
         # the interpreter keep logging without dragging the harness into the copy
         self._vp_token = len(_REGISTRY)
         _REGISTRY.append((vp_world, vp_slot))
+        # the interpreter this evaluator belongs to (copied along by pickle / deepcopy): which slot of the
+        # harness it occupies is looked up by identity, so that a copy placed in a slot of its own logs there
+        self._vp_interp = interpreter
         self._vp_cur = None
 
     def _vp_log(self, entry):
-        w, slot = _REGISTRY[self._vp_token]
+        w, slot = _slot_of(self)
         if w is not None and slot == w.top:     # nested (property) interpreters do not log
             w.log.append(entry)
 
     def _vp_tid(self, t):
-        w, slot = _REGISTRY[self._vp_token]
+        w, slot = _slot_of(self)
         return w.tid(slot, t) if w is not None else -1
 
     def evaluate_guard(self, transition, event=None):
@@ -83,7 +86,7 @@ class LoggingEvaluator(PythonEvaluator):
     def _vp_old(self, entry):
         """a channel of its own (never compared with the model): what the variables were when the
         interpreter asked for the preconditions of an object, and what `__old__` showed later"""
-        w, slot = _REGISTRY[self._vp_token]
+        w, slot = _slot_of(self)
         if w is not None and slot == w.top:
             w.oldlog.append(entry)
 
@@ -170,6 +173,16 @@ class ListenerFailure(Exception):
     def __init__(self, lid):
         super().__init__(lid)
         self.lid = lid
+
+
+def _slot_of(evaluator):
+    w, slot = _REGISTRY[evaluator._vp_token]
+    if w is not None:
+        it = getattr(evaluator, '_vp_interp', None)
+        for i, x in enumerate(w.slots):
+            if x is it:
+                return w, i
+    return w, slot
 
 
 class ImplWorld:
@@ -264,9 +277,17 @@ class ImplWorld:
             clock.time = t0
         ok = True
         try:
+            # the same non-empty initial context is given as the same dict object to every interpreter
+            # of the case (a client reusing its configuration mapping): nobody may write into it
+            shared = self.__dict__.setdefault('_ctx_objects', {})
+            key = repr(ctx0)
+            if ctx0 and key not in shared:
+                shared[key] = ({k: v for k, v in ctx0}, {k: v for k, v in ctx0})
+            initial = shared[key][0] if ctx0 else {}
             it = Interpreter(self.charts[ci], evaluator_klass=make_evaluator(self, slot),
-                             initial_context={k: v for k, v in ctx0}, clock=clock,
+                             initial_context=initial, clock=clock,
                              ignore_contract=ignore)
+            self._ctx_written = bool(ctx0) and shared[key][0] != shared[key][1]
         except CodeEvaluationError:
             # preamble failed: the constructor raised, there is no interpreter
             raise
@@ -280,7 +301,10 @@ class ImplWorld:
                 if event.name in ('state entered', 'transition processed', 'event consumed'):
                     clock.value += 7
             it.attach(mover)
-        return {'ok': ok, 'wf': self._wf(ci)}
+        r = {'ok': ok, 'wf': self._wf(ci)}
+        if getattr(self, '_ctx_written', False):
+            r['initial_context_modified'] = True
+        return r
 
     def _wf(self, ci):
         """W1–W8 of the chart (computed on its protocol form, cached)"""
@@ -296,7 +320,9 @@ class ImplWorld:
         return None
 
     def op_queue(self, i, e):
-        self.slots[i].queue(Event(e['ev'], **{k: v for k, v in e['data']}))
+        # ({'list': [...]} = a fresh list object: a mutable event parameter)
+        self.slots[i].queue(Event(e['ev'], **{k: (list(v['list']) if isinstance(v, dict) and 'list' in v else v)
+                                              for k, v in e['data']}))
         return None
 
     def op_setvar(self, i, n, v):
@@ -368,6 +394,21 @@ class ImplWorld:
         l = self.slots[i].bind(cb.append)
         return self._add_listener(i, ('bindcb', k), l)
 
+    def op_binddet(self, i, k, lid):
+        """bind a recording callable that, on the first event it receives, detaches listener `lid` of the same
+        interpreter (bound after it) — from inside the notification"""
+        cb = self._cb(k)
+        world = self
+        fired = []
+
+        def f(event):
+            cb.append(event)
+            if not fired:
+                fired.append(1)
+                world.slots[i].detach(world.listeners[lid])
+        l = self.slots[i].bind(f)
+        return self._add_listener(i, ('bindcb', k), l)
+
     def op_attach(self, i, k):
         cb = self._cb(k)
         l = cb.append
@@ -412,6 +453,13 @@ class ImplWorld:
             it.attach(own)
         if how.endswith('-keep'):
             return None
+        if how.endswith('-both'):
+            # original and copy both go on, each in a slot of its own
+            j = self._new_slot(cp)
+            ml = self._meta_logger(j)
+            self.meta_loggers[j] = ml
+            cp.attach(ml)
+            return j
         cp.attach(own)
         self.slots[i] = cp
         self.trans[i] = list(cp.statechart.transitions)
